@@ -15,7 +15,7 @@ from models.m_str import str_bytes
 ID = 'C17'
 PROGRAMS = {'core': dict(crate='vaporetto', features=['train', 'kytea'])}
 UNIT_CAP = 100
-BUDGET_S = {'quick': 250, 'thorough': 2000}
+BUDGET_S = {'quick': 600, 'thorough': 1200}      # wall-clock safety caps (exceeding one is reported as inconclusive); typical quick runs take 1-200 s
 
 # file shapes: character map, windows, n-gram tries, dictionaries with membership masks; every weight, the bias and the masks are symbolic
 SHAPES = {
